@@ -9,3 +9,4 @@ INVARIANT Inv_ErrorsNameFiles
 INVARIANT Inv_MainFailsWithReport
 INVARIANT Inv_MainSucceeds
 INVARIANT Self_TreeConsistent
+INVARIANT Self_RootKnown
